@@ -375,13 +375,34 @@ func (c *pairCtx) rel(kind string, K, V ssa.Value, env map[*ssa.UnOp]plit, depth
 		}
 	}
 	if lk != nil {
-		if mm, ok := canon(lk.X).(*ssa.MakeMap); ok {
+		mapv := canon(lk.X)
+		var mapOwner *ssa.Function // where the map is filled when it was handed to this function as a parameter
+		if prm, isPrm := mapv.(*ssa.Parameter); isPrm && prm.Parent().Object() != nil && !prm.Parent().Object().Exported() {
+			idx := -1
+			for i, q := range prm.Parent().Params {
+				if q == prm {
+					idx = i
+				}
+			}
+			for _, cs := range c.p.CallersOf(prm.Parent()) {
+				if a := cs.Instr.Common().Args; idx >= 0 && idx < len(a) {
+					if m2, ok := canon(a[idx]).(*ssa.MakeMap); ok {
+						mapv, mapOwner = m2, TopLevel(cs.Caller)
+					}
+				}
+			}
+		}
+		if mm, ok := mapv.(*ssa.MakeMap); ok {
 			if !ptermEq(c.term(K, env, 0), c.term(lk.Index, env, 0)) {
 				return c.fail("the local map is read at %s under %s, not under the identifier %s", pos(lk), c.term(lk.Index, env, 0), c.term(K, env, 0))
 			}
 			n := 0
 			okAll := true
-			eachInstrDeep(TopLevel(lk.Parent()), func(_ *ssa.Function, in ssa.Instruction) {
+			fillFn := TopLevel(lk.Parent())
+			if mapOwner != nil {
+				fillFn = mapOwner
+			}
+			eachInstrDeep(fillFn, func(_ *ssa.Function, in ssa.Instruction) {
 				mu, ok := in.(*ssa.MapUpdate)
 				if !ok || canon(mu.Map) != ssa.Value(mm) {
 					return
